@@ -45,7 +45,9 @@ def gen_steady(rng) -> dict:
     """-> {"rxns": [(name, [substrates], [products], flux)], "pools": {c: int}, "lv": {c: n}, "maps": {...}}"""
     t = rng.choice(["chain", "chain3", "split", "merge", "branch", "reversible", "carrier"])
     J, K = rng.randint(1, 4), rng.randint(1, 3)
-    A, B, C, D = "c1", "c2", "c3", "c4"
+    # roles get their names in random order, so that the order in which a reaction DECLARES several substrates / products is
+    # not the alphabetical one (both mappers must concatenate the atom positions in declaration order)
+    A, B, C, D = rng.sample(["c1", "c2", "c3", "c4"], 4)
     if t == "chain":
         rx = [([], [A], J), ([A], [B], J), ([B], [], J)]
     elif t == "chain3":
@@ -66,6 +68,8 @@ def gen_steady(rng) -> dict:
     rxns, maps = [], {}
     for j, (s, p, v) in enumerate(rx):
         name = f"v{40 + j}"
+        if rng.random() < 0.5:
+            s, p = list(reversed(s)), list(reversed(p))
         rxns.append((name, s, p, v))
         n = max(sum(lv[c] for c in s), sum(lv[c] for c in p))
         kind = rng.choice(["perm", "perm", "perm", "id", "invol"])
@@ -89,6 +93,16 @@ REGRESSION_NETS = [
      "pools": {"c1": 1, "c2": 1}, "lv": {"c1": 3, "c2": 3}, "maps": {"v40": [0, 1, 2], "v41": [1, 2, 0], "v42": [0, 1, 2]},
      "dists": [{"c1__000": 0, "c1__001": 0, "c1__010": 0, "c1__011": 0, "c1__100": 1, "c1__101": 0, "c1__110": 0, "c1__111": 0,
                 "c2__000": 1, "c2__001": 0, "c2__010": 0, "c2__011": 0, "c2__100": 0, "c2__101": 0, "c2__110": 0, "c2__111": 0}]},
+    # corpus: a merge and a split whose compounds are DECLARED in non-alphabetical order with different label counts
+    # (c2(1) + c1(2) -> c3(3), c3(3) -> c4(2) + c1'(1)): both mappers concatenate the atom positions in declaration order
+    {"template": "corpus-declaration-order",
+     "rxns": [("v40", [], ["c2"], 1), ("v41", [], ["c1"], 1), ("v42", ["c2", "c1"], ["c3"], 1), ("v43", ["c3"], ["c5", "c4"], 1),
+              ("v44", ["c5"], [], 1), ("v45", ["c4"], [], 1)],
+     "pools": {"c1": 1, "c2": 1, "c3": 1, "c4": 1, "c5": 1}, "lv": {"c1": 2, "c2": 1, "c3": 3, "c4": 1, "c5": 2},
+     "maps": {"v40": [0], "v41": [0, 1], "v42": [0, 1, 2], "v43": [0, 1, 2], "v44": [0, 1], "v45": [0]},
+     "dists": [{"c1__00": 1, "c1__01": 0, "c1__10": 0, "c1__11": 0, "c2__0": 0, "c2__1": 1,
+                "c3__000": 0, "c3__001": 0, "c3__010": 0, "c3__011": 0, "c3__100": 1, "c3__101": 0, "c3__110": 0, "c3__111": 0,
+                "c4__0": 1, "c4__1": 0, "c5__00": 1, "c5__01": 0, "c5__10": 0, "c5__11": 0}]},
 ]
 
 
